@@ -1,7 +1,7 @@
 (* C17 — qarray: element addressing, ownership and iteration.  Property theorems only;
    the proofs are in Qarray/Proofs.v, the model in Qarray/Model.v (tied to /repo by ./check C17). *)
 From Coq Require Import List NArith.
-From QV Require Import Qarray.Model Qarray.Proofs Qarray.ProofsHash.
+From QV Require Import Qarray.Model Qarray.Proofs Qarray.ProofsHash Qarray.ProofsDist Qarray.ProofsFields Qarray.ProofsAll.
 Local Open Scope N_scope.
 
 (* For every count, object size, distribution, tight flag, seg_pages, page size and shepherd count that the
@@ -73,6 +73,47 @@ Print Assumptions c17_iter_exact_fixed_hash.
 Example c17_hash_nonvacuous :
   let a := create 5000 8 dFIXED_HASH false 1 4096 3 0 in
   d_kind a = FIXED_HASH /\ 0 < d_segsize a /\ (100 mod d_segsize a <> 0) /\ 100 < 4000 <= d_count a.
+Proof. vm_compute. repeat split; discriminate. Qed.
+
+(* DIST arrays (DIST, DIST_RAND, DIST_STRIPES, DIST_FIELDS, DIST_LEAST: any assignment asg of segments to valid
+   shepherds), every non-empty range. *)
+Theorem c17_iter_exact_dist :
+  forall nsheps asg a start stop,
+    d_kind a = DIST -> 0 < nsheps -> 0 < d_segsize a -> (forall q, asg q < nsheps) -> start < stop ->
+    iter_exact nsheps asg a start stop (iter nsheps asg a start stop) /\
+    iter_exact nsheps asg a start stop (iter_loop nsheps asg a start stop).
+Proof. intros nsheps asg a start stop K Hn Hss Hasg. exact (iter_exact_dist nsheps asg a K Hn Hss Hasg start stop). Qed.
+Print Assumptions c17_iter_exact_dist.
+
+(* FIXED_FIELDS arrays (contiguous runs of segments per shepherd, the first `extras` shepherds own one more),
+   every non-empty range. *)
+Theorem c17_iter_exact_fixed_fields :
+  forall nsheps asg a start stop,
+    d_kind a = FIXED_FIELDS -> 0 < d_segsize a -> 0 < d_sps a -> start < stop ->
+    iter_exact nsheps asg a start stop (iter nsheps asg a start stop) /\
+    iter_exact nsheps asg a start stop (iter_loop nsheps asg a start stop).
+Proof. intros nsheps asg a start stop K Hss Hsps. exact (iter_exact_fields nsheps asg a K Hss Hsps start stop). Qed.
+Print Assumptions c17_iter_exact_fixed_fields.
+
+(* THE property: for every array qarray_create_configured can produce (any count, unit size, tight flag, seg_pages,
+   page size, all eleven creation-time distributions, any number of shepherds) and every non-empty range
+   [start, stop): qarray_iter and the loop striders (qarray_iter_loop, _constloop) invoke the function on every index
+   of the range exactly once, each on the shepherd that owns the element, and on nothing else. *)
+Theorem c17_iter_exact_every_array :
+  forall count obj d tight segpages pagesize nsheps oshep asg start stop,
+    let a := create count obj d tight segpages pagesize nsheps oshep in
+    0 < nsheps -> 0 < d_segsize a -> (forall q, asg q < nsheps) -> start < stop ->
+    iter_exact nsheps asg a start stop (iter nsheps asg a start stop) /\
+    iter_exact nsheps asg a start stop (iter_loop nsheps asg a start stop).
+Proof. exact iter_exact_created. Qed.
+Print Assumptions c17_iter_exact_every_array.
+
+(* non-vacuity for FIXED_FIELDS / DIST with unaligned ranges on several shepherds *)
+Example c17_fields_dist_nonvacuous :
+  let a := create 50000 8 dFIXED_FIELDS false 1 4096 3 0 in
+  let b := create 50000 3 dDIST_STRIPES true 1 4096 3 0 in
+  d_kind a = FIXED_FIELDS /\ 0 < d_segsize a /\ 0 < d_sps a /\ d_kind b = DIST /\ 0 < d_segsize b /\
+  (777 mod d_segsize a <> 0) /\ (777 mod d_segsize b <> 0).
 Proof. vm_compute. repeat split; discriminate. Qed.
 
 (* DIST arrays: the shepherd id stored in each segment lies behind the last element, 4-byte aligned, inside the
